@@ -296,7 +296,8 @@ pub async fn run_reqs(seed: u64, cfg: Cfg, reqs: &[Req], base: &Path, tag: &str)
         let after = digest(&node).await?;
         let subs_after = node.agent.subs_manager().get_handles().len();
         stats.oracle_checks += 1;
-        log.push(format!("{} {} [{}] -> {status} ({got} bytes)", rq.method, rq.path, rq.kind));
+        let _ = got; // (how much of a streaming body arrives within the read window is timing)
+        log.push(format!("{} {} [{}] -> {status}", rq.method, rq.path, rq.kind));
         let right_auth = rq.auth.as_deref() == Some(&format!("Bearer {TOKEN}"));
         let shape = rq.kind.split('/').nth(1).unwrap_or("");
         if cfg.token && !right_auth {
@@ -343,6 +344,9 @@ pub async fn run_reqs(seed: u64, cfg: Cfg, reqs: &[Req], base: &Path, tag: &str)
     stats.converged = violation.is_none();
     let mut h = 0xcbf2_9ce4_8422_2325;
     for l in &log {
+        if std::env::var_os("VERIF_TRACE").is_some() {
+            eprintln!("LOG {l}");
+        }
         fnv(&mut h, l.as_bytes());
     }
     node.trip().await;
